@@ -33,7 +33,18 @@ impl<'a> Harness<'a> {
         self.unwind = catch_unwind(AssertUnwindSafe(|| {
             task_set.block_on(&rt, async move {
                 f();
-                tokio::task::yield_now().await;
+
+                // Keep yielding until the scheduler of this module has no runnable
+                // task left, so that no work is deferred to a later simulated instant.
+                loop {
+                    tokio::task::yield_now().await;
+                    let metrics = tokio::runtime::Handle::current().metrics();
+                    if metrics.global_queue_depth() == 0
+                        && metrics.worker_local_queue_depth(0) == 0
+                    {
+                        break;
+                    }
+                }
             });
         }))
         .err();
